@@ -2,6 +2,7 @@ open Common
 open Ignore_model
 
 (* request:  "vcl (DECL ...)"   ->  "ok <path>:<rulehex> ..."   (report_vcl, emission order)
+             "vclold (DECL ...)" ->  the same through report_vcl_unrepaired
              "parse <hex>"      ->  "none" | "<kind> <rulehex> ..."  (parse_ignore_comment)
    paths are child indices joined by '.', root-first (see Model/Ignore.v run). *)
 
@@ -61,6 +62,10 @@ let handle (req : string) : string =
         (match parse_sexps rest with
          | [Ls ds] -> String.trim ("ok " ^ String.concat " " (List.map show_diag (report_vcl (List.map decl_of ds))))
          | _ -> "badreq vcl")
+     | "vclold" ->   (* the model of the code before the C12 repairs (Model/IgnoreLegacy.v) *)
+        (match parse_sexps rest with
+         | [Ls ds] -> String.trim ("ok " ^ String.concat " " (List.map show_diag (report_vcl_unrepaired (List.map decl_of ds))))
+         | _ -> "badreq vclold")
      | "parse" ->
         (match parse_ignore_comment (bytes_of_hex (String.trim rest)) with
          | None -> "none"
